@@ -1,25 +1,16 @@
-(* C07: exactness of SQLite's float storage of timedelta on a finite, completely enumerated sub-domain, and witnesses for the
-   remainder.  The statements are closed boolean computations over Coq's primitive floats / 63-bit integers, checked by
-   vm_compute; `Print Assumptions` lists exactly those primitives (Coq reports primitive types and operations as axioms), which
-   is why these statements are not among the property theorems of Props/C07.v. *)
-From Coq Require Import ZArith List Bool PrimFloat Uint63.
+(* C07: exactness of SQLite's float storage of timedelta on finite, completely enumerated sub-domains, and witnesses for the
+   remainder.  Closed boolean computations over Coq's primitive floats / 63-bit integers, checked by vm_compute; Print Assumptions
+   lists exactly those kernel primitives (the PrimFloat and PrimInt63 operations).  The larger sweeps are in C07FloatSweep.v. *)
 Require Import PonyV.Model.C07Float.
 
-(* every whole-second timedelta with -30 <= days < 30 (5,184,000 values) is read back exactly *)
-Theorem td_float_whole_seconds_exact : whole_seconds_exact 30 = true.
+Lemma td_float_whole_seconds_exact_3 : exact_whole_seconds_3 = true.
 Proof. vm_compute. reflexivity. Qed.
 
-(* every microsecond value (10^6 each) in: the first second of day 0, the last second of day 0, the last second of day 29,
-   the last second of day 20000 (~54 years), and of day -1 *)
-Theorem td_float_microseconds_exact :
-  microseconds_exact false 0 0 = true /\ microseconds_exact false 0 86399 = true /\ microseconds_exact false 29 86399 = true
-  /\ microseconds_exact false 20000 86399 = true /\ microseconds_exact true 1 0 = true.
-Proof. repeat split; vm_compute; reflexivity. Qed.
-
-(* the remainder: timedelta(days=1000000, microseconds=1) loses its microsecond (known finding sqlite-timedelta-float-precision) *)
-Theorem td_float_precision_refuted : td_float_exact false 1000000 0 1 = false.
+Lemma td_float_microseconds_exact_day0 : exact_microseconds_day0 = true.
 Proof. vm_compute. reflexivity. Qed.
 
-(* ... and already timedelta(days=77680, seconds=35904, microseconds=138270) does *)
-Theorem td_float_precision_refuted_small : td_float_exact false 77680 35904 138270 = false.
+Lemma td_float_precision_refuted : exact_1e6_days_1us = false.
+Proof. vm_compute. reflexivity. Qed.
+
+Lemma td_float_precision_refuted_small : exact_77680_days = false.
 Proof. vm_compute. reflexivity. Qed.
